@@ -86,34 +86,49 @@ func runSolver(ctx context.Context, sp solverSpec, file string, timeoutS, seed i
 	return solveResult{status: st, solver: sp.name, secs: secs, output: text}
 }
 
-// Discharge runs the portfolio on one obligation. First definitive answer (unsat/sat) wins.
+// Discharge runs the portfolio on one obligation. First definitive answer (unsat/sat) wins. An obligation at a
+// point reached over several merged paths is first tried as a whole with the fast stages only, then path by path,
+// and only then as a whole with the full portfolio.
 func (e *Engine) Discharge(o *Obligation, dir string, idx int, timeoutS int, seed int) {
-	e.discharge1(o, dir, idx, timeoutS, seed)
-	if (o.Status == "unsat" || o.Status == "trivial") || len(o.Parts) == 0 || o.Kind == "cover" {
+	if len(o.Parts) == 0 || o.Kind == "cover" || o.Status == "trivial" {
+		e.discharge1(o, dir, idx, timeoutS, seed, false)
 		return
 	}
+	e.discharge1(o, dir, idx, timeoutS, seed, true)
+	if o.Status == "unsat" || o.Status == "sat" {
+		return
+	}
+	quickTime := o.Time
 	// second formulation: prove the goal separately on every merged path
 	total := 0.0
 	solver := ""
+	ok := true
 	for k, part := range o.Parts {
 		sub := &Obligation{Name: fmt.Sprintf("%s/%d", o.Name, k), Kind: o.Kind, Func: o.Func, Goal: part, NFacts: o.NFacts, Gap: o.Gap, PC: o.PC, Ctx: o.Ctx, Src: o.Src}
 		if part.IsTrue() {
 			continue
 		}
-		e.discharge1(sub, dir, idx*100+k+50000, timeoutS, seed)
+		e.discharge1(sub, dir, idx*100+k+50000, timeoutS, seed, false)
 		total += sub.Time
 		if sub.Status != "unsat" {
-			return // keep the verdict (and model) of the unsplit attempt
+			ok = false
+			break
 		}
 		solver = sub.Solver
 	}
-	o.Status = "unsat"
-	o.Solver = solver + " (per-path)"
-	o.Time += total
-	o.Model = ""
+	if ok {
+		o.Status = "unsat"
+		o.Solver = solver + " (per-path)"
+		o.Time = quickTime + total
+		o.Model = ""
+		return
+	}
+	// the verdict (and model) of the unsplit obligation is what gets reported
+	e.discharge1(o, dir, idx, timeoutS, seed, false)
+	o.Time += quickTime + total
 }
 
-func (e *Engine) discharge1(o *Obligation, dir string, idx int, timeoutS int, seed int) {
+func (e *Engine) discharge1(o *Obligation, dir string, idx int, timeoutS int, seed int, fastOnly bool) {
 	if o.Status == "trivial" {
 		o.Solver = "simplifier"
 		return
@@ -234,7 +249,7 @@ func (e *Engine) discharge1(o *Obligation, dir string, idx int, timeoutS int, se
 		}
 	}
 	// stage 2: the whole portfolio with the full limit
-	if win == nil && !coverOnly {
+	if win == nil && !coverOnly && !fastOnly {
 		ctx, cancel := context.WithCancel(context.Background())
 		defer cancel()
 		results := make(chan solveResult, len(solvers))
